@@ -13,12 +13,17 @@ from vf import txsan
 
 REC = Rec(os.environ.get("VF_SUITE_PROP", "C01"))
 CURRENT = {"test": ""}
+PASSIVE = tuple(x for x in os.environ.get("VF_SUITE_PASSIVE", "").split(",") if x)  # component classes to watch with the passive monitors
 
 
 def pytest_configure(config):
     from transactron.testing import simulator as simmod
 
     orig = simmod.PysimSimulator.__init__
+    if PASSIVE:
+        from vf import passive
+        passive.install()
+        passive.ACTIVE[0] = True
 
     def patched(self, *a, **kw):
         orig(self, *a, **kw)
@@ -27,6 +32,12 @@ def pytest_configure(config):
                 REC.count("suite_simulations_without_transaction_manager")
         except Exception as ex:  # the sanitizer must never break a test
             REC.count("suite_attach_failed:" + type(ex).__name__)
+        if PASSIVE:
+            try:
+                from vf import passive
+                passive.attach(self, REC, {"repository_test": CURRENT["test"]}, PASSIVE)
+            except Exception as ex:
+                REC.count("suite_passive_attach_failed:" + type(ex).__name__)
 
     simmod.PysimSimulator.__init__ = patched
 
